@@ -7,7 +7,7 @@ edge kind: 'n' normal, 'u' unwind.  label: None or ('sw', discr_expr, value)
 kinds: entry, ret, resume, join, switch, call, enter, exit, drop, assign,
        assert, yield, dead
 """
-from .expr import FnExprs, callee_name, subst, qualify_locals, mk_field, strip
+from .expr import walk, FnExprs, callee_name, subst, qualify_locals, mk_field, strip
 
 MAX_DEPTH = 7
 
@@ -173,7 +173,7 @@ def _default_body(facts, tr, meth):
     return _default_cache[k]
 
 
-def build(facts, root_key, max_depth=MAX_DEPTH, inline=True, no_inline=(), defaults=False):
+def build(facts, root_key, max_depth=MAX_DEPTH, inline=True, no_inline=(), defaults=False, forward=False):
     g = Graph(facts, root_key)
     g.defaults = defaults
     fn = facts.fns[root_key]
@@ -192,7 +192,96 @@ def build(facts, root_key, max_depth=MAX_DEPTH, inline=True, no_inline=(), defau
         for u in unws:
             g.edge(g.nodes[u], n, 'u')
         g.unwinds.append(n['id'])
+    if inline and forward:
+        _forward_single_returns(g)
     return g
+
+
+def _forward_single_returns(g):
+    """an inlined helper whose return slot has exactly one definition (`fn done(&self) -> bool { self.flag }`, `a < b`, `!x`, a single
+    call) is transparent: wherever the caller uses the value of that call, it sees the defining expression instead. Helpers with
+    several return sites (match arms, short-circuit operators) stay opaque."""
+    alias = {}
+    by_ctx = {}
+    g.opt_frames = {}
+    for n in g.nodes:
+        if n['kind'] == 'assign' and n['lhs'][0] == 'local' and isinstance(n['lhs'][1], tuple) and n['lhs'][1][1] == 0:
+            by_ctx.setdefault(n['lhs'][1][0], []).append(('a', n))
+        elif n['kind'] in ('call', 'exit') and n.get('dest') and n['dest'][0] == 'local' and isinstance(n['dest'][1], tuple) and n['dest'][1][1] == 0 and n.get('name') != '<closure>':
+            by_ctx.setdefault(n['dest'][1][0], []).append(('c', n))
+    for n in g.nodes:
+        if n['kind'] != 'exit' or not n.get('body') or n.get('name') == '<closure>':
+            continue
+        v = n.get('value')
+        if not v or v[0] != 'call':
+            continue
+        cctx = n['ctx'] + ((n['fn'], n['bb'], n['body']),)
+        defs = by_ctx.get(cctx, [])
+        if len(defs) > 1:
+            # `fn pull(&mut self) -> Option<O>`: every return site is None, or (Some of) one and the same value taken out of a
+            # slot -> for the caller the helper's value IS that take()
+            takes = set()
+            ok = True
+            for kind, d in defs:
+                e = strip(d['rhs'] if kind == 'a' else d['value'])
+                if e[0] == 'agg' and e[2].endswith('Option::None'):
+                    continue
+                inner = [x for x in walk(e) if x[0] == 'call' and x[1] in ('std::option::Option::take', 'std::mem::take')]
+                if inner and (e[0] == 'call' and e in inner or (e[0] == 'agg' and e[2].endswith('Option::Some'))):
+                    takes.add(inner[0])
+                else:
+                    ok = False
+            if ok and len(takes) == 1:
+                alias[v[3]] = list(takes)[0]
+                g.opt_frames[cctx] = list(takes)[0]
+            continue
+        if len(defs) != 1:
+            continue
+        kind, d = defs[0]
+        e = d['rhs'] if kind == 'a' else d['value']
+        if e[0] == 'agg' and e[1] == 'tuple' and not e[3]:
+            continue      # unit
+        alias[v[3]] = e
+    if not alias:
+        return
+
+    def rw(e, depth=0):
+        if not isinstance(e, tuple) or not e or depth > 12:
+            return e
+        k = e[0]
+        if k == 'call':
+            if e[3] in alias:
+                return rw(alias[e[3]], depth + 1)
+            return ('call', e[1], tuple(rw(a, depth) for a in e[2]), e[3])
+        if k == 'field':
+            return mk_field(rw(e[1], depth), e[2], e[3] if len(e) > 3 else None)
+        if k == 'variant':
+            return (k, rw(e[1], depth), e[2])
+        if k in ('index', 'discr'):
+            return (k, rw(e[1], depth))
+        if k == 'agg':
+            return ('agg', e[1], e[2], tuple(rw(a, depth) for a in e[3]), e[4], e[5])
+        if k == 'bin':
+            return ('bin', e[1], rw(e[2], depth), rw(e[3], depth))
+        if k == 'un':
+            return ('un', e[1], rw(e[2], depth))
+        return e
+    for n in g.nodes:
+        if n['kind'] in ('enter', 'exit') and n.get('value') and n['value'][0] == 'call' and n['value'][3] in alias:
+            pass        # the helper's own frame keeps its identity
+        else:
+            if n.get('value') is not None and n['kind'] == 'call':
+                pass    # a call node's own value stays a call
+        for f in ('lhs', 'rhs', 'discr', 'place', 'fnptr', 'cond'):
+            if n.get(f) is not None:
+                n[f] = rw(n[f])
+        if n.get('args') is not None:
+            n['args'] = [rw(a) for a in n['args']]
+        if n.get('value') is not None and n['kind'] == 'call':
+            v = n['value']
+            if v[0] == 'call':
+                n['value'] = ('call', v[1], tuple(rw(a) for a in v[2]), v[3])
+        n['succ'] = [(m, k, (('sw', rw(lab[1]), lab[2]) if lab and lab[0] == 'sw' else lab)) for (m, k, lab) in n['succ']]
 
 
 def _inline(g, key, amap, ctx, depth, max_depth, do_inline, no_inline):
@@ -356,24 +445,32 @@ def _call(g, fx, key, ctx, bi, t, cur, starts, unws, tr, depth, max_depth, do_in
     after = n
     # closures handed to a callee we do not see into: may run 0..n times there
     for ai, (a, aty) in enumerate(zip(args, arg_tys)):
-        if aty is None:
+        fnitem = False
+        sa = strip(a)
+        if sa[0] == 'fn' and sa[1] in facts.fns and ai > 0 and name.startswith(('std::iter::', 'std::option::Option::', 'std::result::Result::', 'std::vec::', 'std::slice::')):
+            # a named function handed to a std combinator (`iter().all(slot_is_closed)`) runs there like a closure would
+            cd = sa[1]
+            fnitem = True
+        elif aty is None:
             continue
-        cd = _closure_def_of_type(facts, aty)
+        else:
+            cd = _closure_def_of_type(facts, aty)
         if not cd or cd not in facts.fns or not do_inline or name in STORES_CLOSURE:
             continue
         if depth >= max_depth or any(c[2] == cd for c in ctx):
             g.incomplete.append((key, bi, name, 'closure depth'))
             continue
         cfn = facts.fns[cd]
-        amap = {1: a}
+        amap = {} if fnitem else {1: a}
+        base = 1 if fnitem else 2
         recv = args[0] if args else ('unknown', 'recv')
-        for i in range(cfn['argc'] - 1):
+        for i in range(cfn['argc'] - (0 if fnitem else 1)):
             if i == 0 and name in SOME_OF_RECV and ai != 0:
-                amap[2 + i] = ('field', ('variant', recv, 'Some'), '0', 0)
+                amap[base + i] = ('field', ('variant', recv, 'Some'), '0', 0)
             elif name in ELEM_OF_RECV and ai != 0:
-                amap[2 + i] = ('index', recv)
+                amap[base + i] = ('index', recv)
             else:
-                amap[2 + i] = ('unknown', 'cbarg%d of %s' % (i, name))
+                amap[base + i] = ('unknown', 'cbarg%d of %s' % (i, name))
         nctx = ctx + ((key, bi, cd),)
         g.via_of[(key, bi, cd)] = name
         j = g.new('join', key, ctx, bb=bi, sp=sp)
